@@ -4,6 +4,7 @@ import ast
 from . import terms as tm
 from .terms import T
 from .evalr import Frame, Summary
+from .model import dotted_parts
 
 
 # ----------------------------------------------------------------------------- term patterns
@@ -265,6 +266,102 @@ def reachable_functions(prog, roots):
     return out
 
 
+def _is_generator_fn(fn):
+    import ast
+    stack = list(fn.body)
+    while stack:
+        n = stack.pop()
+        if isinstance(n, (ast.Yield, ast.YieldFrom)):
+            return True
+        if isinstance(n, (ast.FunctionDef, ast.AsyncFunctionDef, ast.Lambda, ast.ClassDef)):
+            continue
+        stack.extend(ast.iter_child_nodes(n))
+    return False
+
+
+_FRESH_CALLS = {"list", "dict", "set", "sorted", "copy", "deepcopy", "reversed", "bytearray", "deque"}
+
+
+def _fresh_expr(e, fn, depth=0):
+    """`e` always evaluates to a container object nobody else holds: a literal / comprehension, a copy, a full slice,
+    a concatenation, or a local name of `fn` every binding of which is one of those."""
+    if isinstance(e, (ast.List, ast.Dict, ast.Set, ast.ListComp, ast.DictComp, ast.SetComp)):
+        return True
+    if isinstance(e, ast.Call):
+        return (dotted_parts(e.func) or [""])[-1] in _FRESH_CALLS
+    if isinstance(e, ast.Subscript) and isinstance(e.slice, ast.Slice):
+        return True
+    if isinstance(e, ast.BinOp) and isinstance(e.op, (ast.Add, ast.Mult)):
+        return True
+    if isinstance(e, ast.IfExp):
+        return _fresh_expr(e.body, fn, depth) and _fresh_expr(e.orelse, fn, depth)
+    if isinstance(e, ast.Name) and fn is not None and depth < 3:
+        a = fn.args
+        if e.id in {x.arg for x in a.args + a.kwonlyargs + a.posonlyargs} or (a.vararg and a.vararg.arg == e.id) or (a.kwarg and a.kwarg.arg == e.id):
+            return False
+        binds = []
+        for st in ast.walk(fn):
+            if isinstance(st, ast.Assign) and any(isinstance(t, ast.Name) and t.id == e.id for t in st.targets):
+                binds.append(st.value)
+            elif isinstance(st, (ast.AnnAssign, ast.NamedExpr)) and isinstance(st.target, ast.Name) and st.target.id == e.id and st.value is not None:
+                binds.append(st.value)
+            elif isinstance(st, (ast.For, ast.comprehension)) and any(isinstance(x, ast.Name) and x.id == e.id for x in ast.walk(st.target)):
+                return False
+            elif isinstance(st, (ast.With,)) and any(i.optional_vars is not None and any(isinstance(x, ast.Name) and x.id == e.id for x in ast.walk(i.optional_vars)) for i in st.items):
+                return False
+            elif isinstance(st, ast.Assign) and any(isinstance(t, (ast.Tuple, ast.List)) and any(isinstance(x, ast.Name) and x.id == e.id for x in ast.walk(t)) for t in st.targets):
+                return False
+            elif isinstance(st, (ast.Global, ast.Nonlocal)) and e.id in st.names:
+                return False
+        return bool(binds) and all(_fresh_expr(b, fn, depth + 1) for b in binds)
+    return False
+
+
+def _always_given_fresh(prog, f, param):
+    """A PRIVATE helper (leading underscore, or nested in another function) that changes a container parameter in place is not a
+    change to a caller's object when every reference to it in the package is a call that hands it a fresh object at that
+    parameter (`_fold(copy.copy(txns))`, a recursive `_fold(parents)` with `parents = []`)."""
+    fn = f.node
+    if not (fn.name.startswith("_") and not fn.name.endswith("__")):
+        return False
+    a = fn.args
+    pos = [x.arg for x in a.posonlyargs + a.args]
+    if f.cls and pos and pos[0] in ("self", "cls"):
+        pos = pos[1:]
+    refs = 0
+    for m in prog.modules.values():
+        # enclosing function of every node, for local-name lookups
+        def visit(node, encl):
+            nonlocal refs
+            ok = True
+            for ch in ast.iter_child_nodes(node):
+                e2 = ch if isinstance(ch, (ast.FunctionDef, ast.AsyncFunctionDef)) else encl
+                if isinstance(ch, ast.Call) and ((isinstance(ch.func, ast.Name) and ch.func.id == fn.name) or (isinstance(ch.func, ast.Attribute) and ch.func.attr == fn.name)):
+                    refs += 1
+                    arg = None
+                    if param in pos and pos.index(param) < len(ch.args) and not any(isinstance(x, ast.Starred) for x in ch.args):
+                        arg = ch.args[pos.index(param)]
+                    for k in ch.keywords:
+                        if k.arg == param:
+                            arg = k.value
+                        if k.arg is None:
+                            return False
+                    if arg is None or not _fresh_expr(arg, encl):
+                        return False
+                    for sub in list(ch.args) + [k.value for k in ch.keywords]:
+                        if not visit(sub, e2):
+                            return False
+                    continue
+                if (isinstance(ch, ast.Name) and ch.id == fn.name and isinstance(ch.ctx, ast.Load)) or (isinstance(ch, ast.Attribute) and ch.attr == fn.name):
+                    return False  # used as a value: who calls it with what is not visible
+                if not visit(ch, e2):
+                    return False
+            return ok
+        if not visit(m.tree, None):
+            return False
+    return refs > 0
+
+
 def hidden_state(prog, roots, allow=()):
     """Writes to module-level state by the functions reachable from `roots` -- the result of a pure function must not depend on
     the history of earlier calls: (a) assignment to a `global` name, (b) in-place mutation of a module-level container,
@@ -433,6 +530,30 @@ def hidden_state(prog, roots, allow=()):
                 for t in st.targets:
                     if isinstance(t, ast.Subscript) and isinstance(t.value, ast.Name) and t.value.id not in local and module_container(modname, t.value.id):
                         out.append((f, st, "deletes from the module-level container %s" % t.value.id))
+        # (d) a function that RETURNS a value and changes a list / dict / set it was GIVEN (directly or through a plain alias
+        # `items = sigs`): the caller's object is different after the call, so a second call with the same object differs
+        returns_value = any(isinstance(r_, ast.Return) and r_.value is not None and not (isinstance(r_.value, ast.Constant) and r_.value.value is None) for r_ in ast.walk(fn))
+        if returns_value and not _is_generator_fn(fn):
+            aliases = {p_: p_ for p_ in params}
+            for st in ast.walk(fn):
+                if isinstance(st, ast.Assign) and len(st.targets) == 1 and isinstance(st.targets[0], ast.Name) and isinstance(st.value, ast.Name) and st.value.id in aliases:
+                    # only a name that is never re-bound to anything else is a plain alias
+                    nm_ = st.targets[0].id
+                    others = [a_ for a_ in ast.walk(fn) if isinstance(a_, ast.Assign) and any(isinstance(t_, ast.Name) and t_.id == nm_ for t_ in a_.targets) and a_ is not st]
+                    if not others and nm_ not in params:
+                        aliases[nm_] = aliases[st.value.id]
+            rebound_params = {t_.id for a_ in ast.walk(fn) if isinstance(a_, ast.Assign) for t_ in a_.targets if isinstance(t_, ast.Name) and t_.id in params}
+            for st in ast.walk(fn):
+                tgt = None
+                if isinstance(st, ast.AugAssign) and isinstance(st.op, ast.Add) and isinstance(st.target, ast.Name) and st.target.id in aliases and \
+                        isinstance(st.value, (ast.List, ast.ListComp)):
+                    tgt = st.target.id
+                elif isinstance(st, ast.Call) and isinstance(st.func, ast.Attribute) and isinstance(st.func.value, ast.Name) and st.func.value.id in aliases and \
+                        st.func.attr in ("append", "extend", "insert", "remove", "clear", "sort", "reverse", "update", "setdefault", "popitem", "appendleft", "extendleft", "add", "discard"):
+                    tgt = st.func.value.id
+                if tgt is not None and aliases[tgt] not in rebound_params and aliases[tgt] not in allow and not _always_given_fresh(prog, f, aliases[tgt]):
+                    out.append((f, st, "changes the %s object its caller passed as `%s` in place (%s) and returns a value: the caller's object is not the same after the call" % (
+                        "list / dict", aliases[tgt], ast.unparse(st)[:50])))
         decos = {(".".join(dotted_parts(d.func if isinstance(d, ast.Call) else d) or ["?"])).split(".")[-1] for d in fn.decorator_list}
         if decos & {"lru_cache", "cache", "cached_property"}:
             for x in ast.walk(fn):
